@@ -219,6 +219,22 @@ def case_catdate_counts_smoothing():
     return "cube", [tabulate(sch, data)], [t], 1000, 0
 
 
+def case_sum_strand():
+    # share of sum next to the sums it is computed from
+    sch = Schema("sum_1d", [S.cat("a", 3, "mid", values=[1, 2, 3])], [("cat", 0)], numeric={"measures": ["sum", "mean"], "valid_counts": True})
+    data = [((1 + i % 3,), 1, 1 + (i * 5) % 4) for i in range(7)]
+    t = {"rows_dimension": {"insertions": [{"function": "subtotal", "name": "a12", "anchor": "top", "kwargs": {"positive": [1, 2]}}]}}
+    return "cube", [tabulate(sch, data)], [t], 0, 0
+
+
+def case_sum_slice():
+    sch = S.schema2("sum_2d", S.cat("a", 3, "mid", values=[1, 2, 3]), B2, numeric={"measures": ["sum", "mean", "stddev"], "valid_counts": True})
+    data = [((1 + i % 3, 1 + (i // 2) % 2), 1, 1 + (i * 5) % 4) for i in range(9)]
+    t = {"rows_dimension": {"insertions": [{"function": "subtotal", "name": "a12", "anchor": "top", "kwargs": {"positive": [1, 2]}}]},
+         "columns_dimension": {"insertions": [{"function": "subtotal", "name": "b12", "anchor": "bottom", "kwargs": {"positive": [1, 2]}}]}}
+    return "cube", [tabulate(sch, data)], [t], 0, 0
+
+
 def case_catdate_strand():
     # categorical-date strand with population estimates (all-ones population proportions) and a subtotal
     sch = Schema("date_1d", [S.cat("d", 3, "first", date=True)], [("cat", 0)], weighted=True)
@@ -229,7 +245,8 @@ def case_catdate_strand():
 
 CASES = [case_strand_with_difference, case_slice_idless_insertions, case_cat_x_mr, case_mr_x_cat_sorted, case_3d_cat_mr_mr, case_3d_mr_cat_cat, case_ca, case_numarr,
          case_datetime, case_cat_view_insertions, case_json_text, case_tabbook, case_numeric_summary,
-         case_ca_as_0th, case_single_col_filter, case_catdate_smoothing, case_catdate_counts_smoothing, case_catdate_strand]
+         case_ca_as_0th, case_single_col_filter, case_catdate_smoothing, case_catdate_counts_smoothing, case_catdate_strand,
+         case_sum_strand, case_sum_slice]
 SCHEMAS = {}
 
 # ------------------------------------------------------------------------ reading
